@@ -38,6 +38,7 @@ type c06Shadow struct {
 	isr      []int
 	replicas []int
 	status   int
+	inflight bool // shadow guess: a batch is awaiting its store result
 }
 
 func csv(xs []int) string {
@@ -52,7 +53,7 @@ func csv(xs []int) string {
 }
 
 func (sh *c06Shadow) genMeta(g *Gen, first bool) {
-	key := []int{1, 1, 1, 0, 0, 2}[g.R.Intn(6)]
+	key := []int{1, 1, 1, 1, 0, 0, 0, 2}[g.R.Intn(8)]
 	id := 1
 	if !first && g.R.Chance(6) {
 		id = g.R.Intn(3)
@@ -72,7 +73,7 @@ func (sh *c06Shadow) genMeta(g *Gen, first bool) {
 		case 1:
 			lepoch++
 			leader = g.R.Range(1, 4)
-			if g.R.Chance(60) {
+			if g.R.Chance(75) {
 				leader = sh.local
 			}
 			kind = "leader-epoch+"
@@ -81,7 +82,7 @@ func (sh *c06Shadow) genMeta(g *Gen, first bool) {
 			if g.R.Chance(50) {
 				lepoch = g.R.Range(0, lepoch+1)
 			}
-			if g.R.Chance(40) {
+			if g.R.Chance(25) {
 				leader = g.R.Range(1, 4)
 			}
 			kind = "epoch+"
@@ -138,7 +139,7 @@ func (sh *c06Shadow) genMeta(g *Gen, first bool) {
 		minisr = len(isr) + 1
 	}
 	status := 2
-	switch g.R.Pick(78, 8, 5, 4, 3, 2) {
+	switch g.R.Pick(86, 6, 3, 2, 2, 1) {
 	case 1:
 		status = 1
 	case 2:
@@ -155,6 +156,9 @@ func (sh *c06Shadow) genMeta(g *Gen, first bool) {
 	// optimistic shadow: assume accepted when it does not regress
 	if key != 2 && minisr >= 1 && minisr <= len(isr) &&
 		(epoch > sh.epoch || (epoch == sh.epoch && (lepoch > sh.lepoch || (lepoch == sh.lepoch && (leader == sh.leader || first))))) {
+		if epoch != sh.epoch || lepoch != sh.lepoch || leader != sh.leader || status != sh.status {
+			sh.inflight = false
+		}
 		sh.epoch, sh.lepoch, sh.leader = epoch, lepoch, leader
 		sh.isr, sh.replicas, sh.status = isr, replicas, status
 	}
@@ -211,7 +215,9 @@ func (sh *c06Shadow) genPropose(g *Gen) {
 		nrec := g.R.Pick(5, 60, 25, 10)
 		g.Count("prop1:nrec=" + strconv.Itoa(min(nrec, 2)))
 		g.Op("prop1", "%d %d %d", op, mode, nrec)
-		sh.batchOp, sh.batchLen = op, nrec
+		if sh.canPropose() && nrec > 0 {
+			sh.batchOp, sh.batchLen, sh.inflight = op, nrec, true
+		}
 		sh.recent = append(sh.recent, op)
 		return
 	}
@@ -248,15 +254,21 @@ func (sh *c06Shadow) genPropose(g *Gen) {
 		w = strings.Join(ws, ";")
 	}
 	g.Op("prop", "%d %s", batch, w)
-	sh.batchOp, sh.batchLen = batch, total
+	if sh.canPropose() && total > 0 {
+		sh.batchOp, sh.batchLen, sh.inflight = batch, total, true
+	}
 	sh.recent = append(sh.recent, ops...)
 	if len(sh.recent) > 12 {
 		sh.recent = sh.recent[len(sh.recent)-12:]
 	}
 }
 
+func (sh *c06Shadow) canPropose() bool {
+	return !sh.inflight && sh.leader == sh.local && (sh.status == 1 || sh.status == 2)
+}
+
 func (sh *c06Shadow) freshOrReused(g *Gen) int {
-	if len(sh.recent) > 0 && g.R.Chance(12) {
+	if len(sh.recent) > 0 && g.R.Chance(7) {
 		g.Count("prop:reused-op")
 		return sh.recent[g.R.Intn(len(sh.recent))]
 	}
@@ -266,14 +278,21 @@ func (sh *c06Shadow) freshOrReused(g *Gen) int {
 }
 
 func (sh *c06Shadow) follower(g *Gen) int {
-	if len(sh.replicas) > 0 && g.R.Chance(85) {
+	if len(sh.isr) > 0 && g.R.Chance(70) {
+		n := sh.isr[g.R.Intn(len(sh.isr))]
+		if n == sh.local {
+			n = sh.isr[g.R.Intn(len(sh.isr))]
+		}
+		return n
+	}
+	if len(sh.replicas) > 0 && g.R.Chance(80) {
 		return sh.replicas[g.R.Intn(len(sh.replicas))]
 	}
 	return g.R.Range(0, 5)
 }
 
 func (sh *c06Shadow) offset(g *Gen, what string) int {
-	switch g.R.Pick(55, 15, 10, 8, 6, 6) {
+	switch g.R.Pick(30, 45, 7, 5, 5, 8) {
 	case 1:
 		g.Count(what + ":offset=leo-estimate")
 		return sh.leo
@@ -315,7 +334,19 @@ func genC06(g *Gen) {
 		}
 		n := g.R.Range(events/2, events)
 		for i := 0; i < n; i++ {
-			switch g.R.Pick(24, 22, 8, 16, 6, 4, 6, 2, 11, 1) {
+			wProp, wStored, wQC := 40, 3, 2
+			if sh.inflight {
+				wProp, wStored, wQC = 6, 40, 12
+			}
+			wMeta, wAck := 6, 22
+			if sh.leader != sh.local || !(sh.status == 1 || sh.status == 2) {
+				// not a serving leader: a few rejected calls, then metadata moves on
+				wProp, wStored, wQC, wMeta, wAck = 5, 3, 2, 30, 6
+				g.Count("step:while-not-serving-leader")
+			} else {
+				g.Count("step:while-serving-leader")
+			}
+			switch g.R.Pick(wProp, wStored, wQC, wAck, 8, 5, 5, 2, wMeta, 1) {
 			case 0:
 				sh.genPropose(g)
 			case 1:
@@ -336,9 +367,15 @@ func genC06(g *Gen) {
 					g.Count("stored:arbitrary-base-and-last")
 				}
 				g.Op("stored", "%s %s %s %s %d", f, o, base, last, e)
-				if f == "cur" && o == "cur" && e == 0 && base == "n" && last == "n" {
-					sh.leo += sh.batchLen
-					sh.batchLen = 0
+				if sh.inflight && (f == "cur" || f == fmt.Sprintf("1,7,%d,%d", sh.epoch, sh.lepoch)) && (o == "cur" || o == strconv.Itoa(sh.batchOp)) {
+					if e == 0 && base == "n" && last == "n" {
+						sh.leo += sh.batchLen
+					} else if e == 0 && last != "n" {
+						if v, _ := strconv.Atoi(last); v > sh.leo {
+							sh.leo = v
+						}
+					}
+					sh.inflight = false
 				}
 			case 2:
 				f, o, e := sh.fenceTok(g, "qc"), sh.opTok(g, "qc"), sh.errTok(g, "qc")
@@ -362,9 +399,11 @@ func genC06(g *Gen) {
 					g.Count("qc:consistent-range-not-at-leo")
 				}
 				g.Op("qc", "%s %s %s %s %s %d", f, o, first, last, hw, e)
-				if f == "cur" && o == "cur" && e == 0 && first == "n" && last == "n" && hw == "n" {
-					sh.leo += sh.batchLen
-					sh.batchLen = 0
+				if sh.inflight && (f == "cur" || f == fmt.Sprintf("1,7,%d,%d", sh.epoch, sh.lepoch)) && (o == "cur" || o == strconv.Itoa(sh.batchOp)) {
+					if e == 0 && first == "n" && last == "n" && hw == "n" {
+						sh.leo += sh.batchLen
+					}
+					sh.inflight = false
 				}
 			case 3:
 				f := "cur"
@@ -402,6 +441,9 @@ func genC06(g *Gen) {
 					t = strconv.Itoa(max(sh.batchOp-g.R.Intn(2), 0))
 				}
 				g.Op("abort", "%s", t)
+				if t == "cur" || t == strconv.Itoa(sh.batchOp) {
+					sh.inflight = false
+				}
 			case 8:
 				sh.genMeta(g, false)
 			case 9:
